@@ -56,6 +56,19 @@ add("C18", "exploration", EXPL,
     "Distinct caller-supplied trace ids and sampling decisions per call under concurrency and cancellation: transmitted trace id = caller's, fresh span per hop, Cancel carries the Request's transmitted context, handler observes what was transmitted.",
     "Span ids come from thread_rng and are compared only for (in)equality.", "DESIGN.md §5 C18")
 
+add("C07", "exploration", EXPL,
+    "Virtual-clock exploration of deadline propagation: request deadlines from 0 ms (already expired at encode time) to 1 h through JSON and bincode over a SimPipe with virtual latency and through the in-memory transport, and service chains of depth 1-3 over mixed links; the deadline each handler observes is compared with the caller's deadline and the measured transit time (never earlier, never stretched beyond transit, expired arrives as now), and JSON requests omitting the deadline must get decode time + 10 s.",
+    "Clock read through hook H1; all virtual instants are whole milliseconds.", "DESIGN.md §5 C07")
+add("C09", "fault_enumeration", ENUM,
+    "One injected transport failure per run at the k-th poll_ready / start_send / poll_flush / poll_close / poll_next, or end-of-stream instead of the k-th read, with k drawn over the whole run, on top of the general client and server scenario spaces: the dispatch / request stream must report the failed activity, every outstanding call fails with a connection error, later calls fail fast, a failed request write fails only that call, dropped channels abort their handlers, and nothing panics.",
+    "k is sampled per run rather than enumerated exhaustively for one scenario; evidence reports how often each fault kind fired.", "DESIGN.md §5 C09")
+add("C13", "exploration", EXPL,
+    "Real MaxChannelsPerKey over real BaseChannels fed by a scripted listener: batches of arrive/close with the listener polled at tape-chosen points, 40% of batches making a close and a same-key arrival pending at one poll; a reference map of live channels per key decides over-limit, over-shed and capacity freeing.",
+    "Drops of admitted channels are atomic harness steps.", "DESIGN.md §5 C13, §7 D3")
+add("C15", "exploration", EXPL,
+    "Sequences of 0-12 protocol messages (all variants, boundary ids and trace ids, empty/unicode/64 KiB bodies, every io::ErrorKind) through the shipped serde transport with JSON and bincode over a SimPipe that fragments reads and writes (down to byte-by-byte), returns Pending, limits capacity and adds latency, and through the in-memory bounded/unbounded channels; reader's items must equal writer's, then end-of-stream; hand-built JSON frames omit optional fields.",
+    "Split positions are sampled by the tape, not enumerated.", "DESIGN.md §5 C15, §7 D1")
+
 NOT_YET = {}
 NOT_APPLICABLE = {
     "C17": "quantifies over programs (service definitions) and is decided at macro-expansion/compile time; the generated glue has no schedule, clock, fault or interleaving of its own for a simulator to vary",
